@@ -189,6 +189,23 @@ class FuncValue:
         return 'Func({})'.format(self.label or self.fdef.name)
 
 
+class PartialValue:
+    """functools.partial(func, **kwargs) built by a helper of the analysed module"""
+
+    def __init__(self, func, kwargs):
+        self.func, self.kwargs = func, dict(kwargs)
+
+    def __repr__(self):
+        return 'partial({}, {})'.format(self.func, self.kwargs)
+
+
+class LetterTerms:
+    """[elt for c in <letters of a spelling>]: the value of elt for every letter the spelling may contain"""
+
+    def __init__(self, pname, mapping, distinct):
+        self.pname, self.mapping, self.distinct = pname, mapping, distinct
+
+
 class RecordType:
     """namedtuple / typing.NamedTuple / @dataclass with plain fields: a folded record constructor"""
 
